@@ -34,6 +34,9 @@ class VPLEnvironment(Environment):
                  instructor_file='on_run.py', skip_tifa=True, skip_run=False,
                  inputs=None, set_correct=True, set_success=None,
                  report=MAIN_REPORT, trace=True):
+        # Every submission is graded out of the default maximum, unless the
+        # script that grades THIS one asks for another
+        set_maximum_score(1)
         super().__init__(files=files, main_file=main_file, main_code=main_code,
                          user=user, assignment=assignment, course=course,
                          execution=execution, instructor_file=instructor_file,
